@@ -2,25 +2,25 @@
    records (inputs + what the real code did), the model's answer for the same
    inputs, the executable form of the property, and the verdict.
 
-   Verdict codes (check treats every code >= 2 as a property failure and
-   hands the code to props/C16.py:classify):
+   Verdict codes (check treats every code >= 2 as a property failure):
      0  model and implementation agree, the property holds on the trace
      1  they differ on an observable the property does not speak about
         (tables that are not the table of one crawl)
      2  the implementation differs from the proved model on a property-relevant
         observable
-     4  model and implementation agree, the property fails, and the failure is
-        none of the patterns below
-    10  read between the swap steps mixes two crawls                    (F9)
-    11  K = 0: the call does not return (paging step 0)                 (F5)
-    12  bulk operation on an empty table panics (divide by zero)        (F2)
-    13  the constructor drops the configured IP diversity limit         (F4)
-    14  a starting peer listed twice is queried twice                   (F6)
-    15  a peer with two addresses in one IP group is skipped although
-        the group is within the limit
-    16  K = 0 with a positive limit returns every crawled peer
-   Codes 10-16 are only given when the implementation did exactly what the
-   faithful model does. *)
+     4  model and implementation agree and the property fails (the theorems
+        exclude it; kept so that a wrong executable property shows up)
+     5  a call panicked or did not return where the property forbids it
+     6  a reader concurrent with a table swap got an answer that is the answer
+        of neither the old nor the new crawl
+     7  a peer was queried more than once in one crawl, or the callbacks are
+        not one per query
+     8  the constructed client does not carry the configured limit / a bucket
+        size below 1 was accepted
+   Codes 5-8 are computed from the implementation's observations alone.
+   States with K = 0 cannot be constructed any more (c16_missing_options_
+   rejected); the direct-state cases that still set K = 0 only compare model
+   and implementation. *)
 From Verif.Lib Require Import GoSem Bits.
 From Verif.Model Require Export FullRt Crawler.
 
@@ -42,7 +42,7 @@ Record round := {
 Inductive case :=
 | CClosest1 (c : crawl) (key : N) (K limit : nat) (impl : cobs)      (* the table of one crawl *)
 | CClosest (rt kmap : list N) (addrs : list (N * list addr)) (key : N) (K limit : nat) (impl : cobs)
-| CCtor (o : opts) (dflt : nat) (c : crawl) (key : N) (impl_cfg : option (nat * nat)) (impl : cobs)
+| CCtor (o : opts) (dbucket dlimit : nat) (c : crawl) (key : N) (impl_cfg : option (nat * nat)) (impl : cobs)
 | CCrawl (seeds : list (N * bool)) (net : list (N * list N)) (par : nat)
          (impl_done : bool) (impl_disp : list N) (impl_cb : list (N * bool))
 | CRefresh (bootstrap : list (N * bool)) (peers : list (N * (bool * (bool * list addr))))
@@ -123,22 +123,18 @@ Definition exact_if_diverse (c : crawl) (key : N) (K limit : nat) (l : list N) :
 Definition closest_prop_ok (c : crawl) (key : N) (K limit : nat) (l : list N) : bool :=
   strictly_ascending key l && forallb (fun p => nmem p (map fst c)) l && (length l <=? K)
   && within_limit c limit l && exact_if_diverse c key K limit l.
-Definition has_dup_group (c : crawl) : bool :=
-  existsb (fun x => negb (nodupb (addr_groups (snd x)))) c.
 
 (* verdict for an answer on the table of one crawl, with the limit the caller asked for *)
 Definition closest_verdict (c : crawl) (key : N) (K limit : nat) (model impl : cobs) : nat :=
+  if K =? 0 then
+    (if cobs_eqb model impl then 0 else match impl with OPanic | OHang => 5 | _ => 2 end)
+  else
   match impl with
-  | OPanic => 2
-  | OHang => if cobs_eqb model impl then (if (K =? 0) && (limit =? 0) then 11 else 4) else 2
-  | OErr => if K =? 0 then (if cobs_eqb model impl then 0 else 1) else 2
+  | OPanic | OHang => 5
+  | OErr => 2
   | OPeers l =>
       if negb (cobs_eqb model impl) then 2
-      else if K =? 0 then (match l with [] => 0 | _ => 16 end)
-      else if closest_prop_ok c key K limit l then 0
-      else if strictly_ascending key l && forallb (fun p => nmem p (map fst c)) l && (length l <=? K)
-              && within_limit c limit l && has_dup_group c then 15
-      else 4
+      else if closest_prop_ok c key K limit l then 0 else 4
   end.
 
 Definition is_single_crawl (rt kmap : list N) (addrs : list (N * list addr)) : bool :=
@@ -150,17 +146,19 @@ Definition net_of (l : list (N * list N)) : cnet :=
 Definition crawl_fuel (seeds : list (N * bool)) (net : list (N * list N)) : nat :=
   2 * (length seeds + length net + length (flat_map snd net)) + 2.
 
+Definition once_verdict (disp : list N) (cb : list (N * bool)) : nat :=
+  if nodupb disp && nlist_eqb (sort_N (map fst cb)) disp then 0 else 7.
+
 Definition crawl_verdict (seeds : list (N * bool)) (net : list (N * list N)) (par : nat)
            (impl_done : bool) (impl_disp : list N) (impl_cb : list (N * bool)) : nat :=
+  if negb impl_done then 5
+  else if negb (once_verdict impl_disp impl_cb =? 0) then 7
+  else
   match crawl_exec (crawl_fuel seeds net) (net_of net) par (crawl_init seeds) with
   | Ok s =>
-      if negb impl_done then 2
-      else if negb (nlist_eqb (sort_N (c_disp s)) impl_disp
-                    && list_eqb cb_eqb (sort_cb (c_cb s)) impl_cb) then 2
-      else if negb (nlist_eqb (sort_N (map fst impl_cb)) impl_disp) then 4   (* one outcome per query *)
-      else if nodupb impl_disp then 0
-      else if nodupb (dialable seeds) then 4 else 14
-  | _ => if impl_done then 2 else 4
+      if nlist_eqb (sort_N (c_disp s)) impl_disp && list_eqb cb_eqb (sort_cb (c_cb s)) impl_cb
+      then 0 else 2
+  | _ => 2
   end.
 
 (* ---- refresh rounds through runCrawler ---------------------------------- *)
@@ -191,14 +189,13 @@ Fixpoint rounds_verdict (bootstrap : list (N * bool)) (peers : list (N * pinfo))
             && list_eqb cb_eqb (sort_cb (c_cb s)) (r_cb r)
             && nlist_eqb (sort_N (map fst found')) (r_table r)
             && cobs_eqb (cobs_of (get_closest_eval (table_of found') (r_key r) K limit)) (r_read r) in
-          if negb agree then 2
+          if negb (once_verdict (r_disp r) (r_cb r) =? 0) then 7
+          else if negb agree then 2
           else
             let v_read := closest_verdict found' (r_key r) K limit (r_read r) (r_read r) in
-            let v_once := if nodupb (r_disp r) then 0
-                          else if nodupb (dialable seeds) then 4 else 14 in
-            let v_cb := if nlist_eqb (sort_N (map fst (r_cb r))) (r_disp r) then 0 else 4 in
+            let v_once := once_verdict (r_disp r) (r_cb r) in
             rounds_verdict bootstrap peers par K limit found' rest
-              (Nat.max acc (Nat.max v_read (Nat.max v_once v_cb)))
+              (Nat.max acc (Nat.max v_read v_once))
       | _ => 2
       end
   end.
@@ -208,37 +205,30 @@ Definition one_of_two (a b x : cobs) : bool := cobs_eqb a x || cobs_eqb b x.
 
 Definition swap_verdict (old new : crawl) (key : N) (K limit : nat)
            (impl0 impl1 : cobs) (impl2 : option cobs) (impl3 : cobs) : nat :=
-  let t0 := table_of old in
-  let t1 := swap_addrs t0 new in
-  let t2 := swap_kmap t1 new in
-  let m0 := cobs_of (get_closest_eval t0 key K limit) in
-  let m1 := cobs_of (get_closest_eval t1 key K limit) in
-  let m2 := cobs_of (get_closest_eval t2 key K limit) in
+  let m0 := cobs_of (get_closest_eval (table_of old) key K limit) in
   let m3 := cobs_of (get_closest_eval (table_of new) key K limit) in
-  let agree := cobs_eqb m0 impl0 && cobs_eqb m1 impl1 && cobs_eqb m3 impl3
-               && match impl2 with Some i2 => cobs_eqb m2 i2 | None => true end in
-  if negb agree then 2
-  else if one_of_two impl0 impl3 impl1
-          && match impl2 with Some i2 => one_of_two impl0 impl3 i2 | None => true end
-       then Nat.max (closest_verdict old key K limit impl0 impl0) (closest_verdict new key K limit impl3 impl3)
-       else 10.
+  if negb (one_of_two impl0 impl3 impl1
+           && match impl2 with Some i2 => one_of_two impl0 impl3 i2 | None => true end) then 6
+  else if negb (cobs_eqb m0 impl0 && cobs_eqb m3 impl3) then 2
+  else Nat.max (closest_verdict old key K limit m0 impl0) (closest_verdict new key K limit m3 impl3).
 
 (* ---- bulk / single / chunks --------------------------------------------- *)
 Definition bulk_verdict (c : crawl) (K limit : nat) (keys : list N) (impl : oobs) : nat :=
   let m := oobs_of (bulk_send (table_of c) K limit keys) in
   match impl with
-  | OOPanic => if oobs_eqb m impl then (match c, keys with [], _ :: _ => 12 | _, _ => 4 end) else 2
-  | OOHang => if oobs_eqb m impl then (if (K =? 0) && (limit =? 0) then 11 else 4) else 2
-  | _ => if oobs_eqb m impl then 0 else 2
+  | OOPanic => 5
+  | OOHang => if (K =? 0) && oobs_eqb m impl then 0 else 5
+  | _ => if negb (oobs_eqb m impl) then 2
+         else match c, keys, impl with [], _ :: _, ONil => 4 | _, _, _ => 0 end
   end.
 
 Definition single_verdict (c : crawl) (K limit : nat) (key : N) (impl : oobs) : nat :=
   let m := oobs_of (single_send (table_of c) key K limit) in
   match impl with
-  | OOPanic => 2
-  | OOHang => if oobs_eqb m impl then (if (K =? 0) && (limit =? 0) then 11 else 4) else 2
-  | ONil => if oobs_eqb m impl then (match c with [] => 4 | _ => if K =? 0 then 16 else 0 end) else 2
-  | OError => if oobs_eqb m impl then 0 else 2
+  | OOPanic => 5
+  | OOHang => if (K =? 0) && oobs_eqb m impl then 0 else 5
+  | _ => if negb (oobs_eqb m impl) then 2
+         else match c, impl with [], ONil => 4 | _, _ => 0 end
   end.
 
 Definition chunk_verdict (n : nat) (chunk : Z) (impl : option (list nat)) : nat :=
@@ -248,19 +238,19 @@ Definition chunk_verdict (n : nat) (chunk : Z) (impl : option (list nat)) : nat 
   | _, _ => 2
   end.
 
-Definition ctor_verdict (o : opts) (dflt : nat) (c : crawl) (key : N)
+Definition ctor_verdict (o : opts) (dbucket dlimit : nat) (c : crawl) (key : N)
            (impl_cfg : option (nat * nat)) (impl : cobs) : nat :=
-  match new_fullrt o, impl_cfg with
-  | None, None => 0
-  | Some f, Some (k, l) =>
-      if negb ((f_K f =? k) && (f_limit f =? l)) then 2
+  match impl_cfg with
+  | None => match new_fullrt dbucket dlimit o with None => 0 | Some _ => 2 end
+  | Some (k, l) =>
+      if negb ((1 <=? k) && (l =? configured_limit dlimit o)) then 8
       else
-        let m := cobs_of (get_closest_eval (table_of c) key k l) in
-        if negb (cobs_eqb m impl) then 2
-        else
-          let v := closest_verdict c key k l m impl in
-          if negb (l =? configured_limit dflt o) then Nat.max 13 v else v
-  | _, _ => 2
+        match new_fullrt dbucket dlimit o with
+        | None => 2
+        | Some f =>
+            if negb ((f_K f =? k) && (f_limit f =? l)) then 2
+            else closest_verdict c key k l (cobs_of (get_closest_eval (table_of c) key k l)) impl
+        end
   end.
 
 Definition verdict (c : case) : nat :=
@@ -273,8 +263,8 @@ Definition verdict (c : case) : nat :=
       let m := cobs_of (get_closest_eval {| t_rt := rt; t_kmap := kmap; t_addrs := addrs |} key K limit) in
       if is_single_crawl rt kmap addrs then closest_verdict addrs key K limit m impl
       else if cobs_eqb m impl then 0
-      else match impl with OPanic | OHang => 2 | _ => 1 end
-  | CCtor o dflt c key impl_cfg impl => ctor_verdict o dflt c key impl_cfg impl
+      else match impl with OPanic | OHang => 5 | _ => 1 end
+  | CCtor o db dl c key impl_cfg impl => ctor_verdict o db dl c key impl_cfg impl
   | CCrawl seeds net par d disp cb => crawl_verdict seeds net par d disp cb
   | CRefresh bootstrap peers par K limit rounds => rounds_verdict bootstrap peers par K limit [] rounds 0
   | CSwap old new key K limit i0 i1 i2 i3 => swap_verdict old new key K limit i0 i1 i2 i3
